@@ -9,6 +9,7 @@ L = 3 if a.tier == 'quick' else 4
 R = Report('all histories of length <= %d over ops {6 registration kinds} x {A, B(A), C(A), D(B)} rooted at SafeLoader+SafeDumper and FullLoader+Dumper' % L)
 KINDS = ['yaml_constructors', 'yaml_multi_constructors', 'yaml_representers', 'yaml_multi_representers', 'yaml_implicit_resolvers', 'yaml_path_resolvers']
 LOADER_KINDS = {'yaml_constructors', 'yaml_multi_constructors', 'yaml_implicit_resolvers', 'yaml_path_resolvers'}
+FIRSTS = [['x'], ['1', '~'], ['x', 'y'], None]
 SHIPPED = [yaml.BaseLoader, yaml.SafeLoader, yaml.FullLoader, yaml.UnsafeLoader, yaml.Loader, yaml.BaseDumper, yaml.SafeDumper, yaml.Dumper]
 
 
@@ -89,8 +90,11 @@ def run_history(rootL, rootD, hist):
             t = type('T%d' % step, (), {}); Ds[n].add_multi_representer(t, val); own[(n, k)][t] = val
         elif k == 'yaml_implicit_resolvers':
             rx = re.compile('x%d' % step)
-            Ls[n].add_implicit_resolver('!t%d' % step, rx, ['x', '1'])
-            for ch in ['x', '1']:
+            # the leading characters differ from one registration to the next: a fresh one, stock ones ('1', '~', 'y' have shipped
+            # entries), both, and None (= the catch-all list), so that a later registration reaches lists the first one did not
+            first = FIRSTS[step % len(FIRSTS)]
+            Ls[n].add_implicit_resolver('!t%d' % step, rx, first)
+            for ch in (first if first is not None else [None]):
                 own[(n, k)].setdefault(ch, []).append(('!t%d' % step, rx))
         elif k == 'yaml_path_resolvers':
             Ls[n].add_path_resolver('!p%d' % step, [str(step)], dict)
